@@ -56,7 +56,7 @@ func (c17) Plan(tier string, seed int64) []mon.Workload {
 		{Name: "expression-errors", N: int64(len(c17ErrExprs) * len(c17ErrCtx)), Exhaustive: true},
 		{Name: "link-errors", N: b / 3},
 		{Name: "load-faults", N: int64(len(c17LoadFaults) * len(c17LoadCtx)), Exhaustive: true},
-		{Name: "use-chains", N: int64(len(c17ChainFaults) * 3 * len(c17ChainWraps)), Exhaustive: true},
+		{Name: "use-chains", N: int64(len(c17ChainFaults) * len(c17ChainDepths) * len(c17ChainWraps)), Exhaustive: true},
 	}
 }
 
@@ -247,13 +247,17 @@ func (k c17) runLoadFault(c *mon.Ctx, i int64) {
 // not remember earlier runs.
 var c17ChainFaults = []string{"boom()", "x = 1 / zero", "replace(message, \"a(b\", \"x\")", "datetime(ts3, \"s\", \"no-such-layout\")",
 	"add_key(k2, replace(message, \"a(b\", \"x\"))", "y = w[5]", "add_key(k2, boom())", "z = mm[\"a\"][\"b\"]"}
+
+// short chains, and chains around every power of two up to 128 (a chain is
+// as long as the path that leads to the fault, however long that is)
+var c17ChainDepths = []int{1, 2, 3, 7, 8, 9, 15, 16, 17, 31, 32, 33, 63, 64, 65, 127, 128, 129}
 var c17ChainWraps = [][2]string{{"", "\n"}, {"if true {\n  ", "\n}\n"}, {"for e in [1] {\n    ", "\n}\n"}}
 
 func (k c17) runUseChain(c *mon.Ctx, i int64) {
 	wrap := c17ChainWraps[int(i)%len(c17ChainWraps)]
 	i /= int64(len(c17ChainWraps))
-	depth := 1 + int(i%3)
-	fault := c17ChainFaults[int(i)/3]
+	depth := c17ChainDepths[int(i)%len(c17ChainDepths)]
+	fault := c17ChainFaults[int(i)/len(c17ChainDepths)]
 	srcs := map[string]string{}
 	type span struct{ from, to int }
 	spans := make([]span, depth+1)
@@ -277,7 +281,7 @@ func (k c17) runUseChain(c *mon.Ctx, i int64) {
 	first := ""
 	for run := 0; run < 3; run++ {
 		pt := drive.PointFromModel(ref.NewPoint("m", nil, map[string]any{"message": "msg"}, time.Unix(1700000000, 0)))
-		ro := drive.RunV1(loaded[name(0)], pt, &drive.RunState{Budget: 5000})
+		ro := drive.RunV1(loaded[name(0)], pt, &drive.RunState{Budget: 100000})
 		c.Eval(1)
 		if ro.Panic != nil {
 			c.Violate("run-panic", fmt.Sprintf("%v\n%s", ro.Panic, srcDump(srcs)), info)
@@ -330,6 +334,44 @@ func (k c17) runUseChain(c *mon.Ctx, i int64) {
 			}
 		}
 		c.Count("use_chains_checked", 1)
+	}
+	if fault != c17ChainFaults[0] {
+		return
+	}
+	// the same chain with a LOAD-time fault at its end (a use() of a script
+	// that is not in the set): every script of the chain is rejected, and the
+	// error of level l is the missing call followed by one entry per use()
+	// call site between it and l, innermost first
+	missing := "use(\"not-in-the-set.p\")"
+	pre = "zero = 0\n"
+	spans[depth] = span{len(pre), len(pre) + len(missing)}
+	srcs[name(depth)] = pre + missing + "\nadd_key(after, 1)\n"
+	_, errs = drive.LoadV1(srcs)
+	c.Eval(1)
+	for _, l := range []int{0, depth / 2, depth} {
+		err := errs[name(l)]
+		pe, ok := err.(*errchain.PlError)
+		if err == nil || !ok || pe == nil {
+			c.Violate("link-error-chain-wrong", fmt.Sprintf("%s reaches a missing script through %d use() calls; its load error is %T %v\n%s", name(l), depth-l, err, err, firstN(srcDump(srcs), 30)), info)
+			return
+		}
+		chain := pe.PosChain
+		if len(chain) != depth-l+1 {
+			c.Violate("link-error-chain-wrong", fmt.Sprintf("%s reaches the missing script through %d use() calls, so its error has %d positions; the chain has %d\n%s", name(l), depth-l, depth-l+1, len(chain), firstN(pe.Error(), 12)), info)
+			return
+		}
+		for j, e := range chain {
+			lv := depth - j
+			if e.File != name(lv) || e.Pos < spans[lv].from || e.Pos >= spans[lv].to {
+				c.Violate("link-error-chain-wrong", fmt.Sprintf("error of %s, entry %d is %s offset %d; expected the use() call of %s at [%d,%d)\n%s", name(l), j, e.File, e.Pos, name(lv), spans[lv].from, spans[lv].to, firstN(pe.Error(), 12)), info)
+				return
+			}
+			if d := drive.CheckPosition(e, name(lv), srcs[name(lv)]); d != "" {
+				c.Violate("error-position-invalid", fmt.Sprintf("link error of %s, entry %d: %s", name(l), j, d), info)
+				return
+			}
+		}
+		c.Count("long_link_chains_checked", 1)
 	}
 }
 
